@@ -167,9 +167,10 @@ class Timeout(Exception):
     pass
 
 
-def impl_scan(s, info_only=False, continue_on_error=False, filter_expr=None, ignore_expect=False, limit=None):
+def impl_scan(s, info_only=False, continue_on_error=False, filter_expr=None, ignore_expect=False, limit=None, digests=None):
     """-> ([serialized_bytes...], outcome) with outcome 'done' | 'err:...' ; never hangs (limit on the
-    number of items; the caller passes one more than it expects)"""
+    number of items; the caller passes one more than it expects).  digests: None or (list to fill, function of the
+    message): one entry per yielded item"""
     from pybufrkit.decoder import Decoder, generate_bufr_message
     import contextlib
     import io
@@ -183,6 +184,8 @@ def impl_scan(s, info_only=False, continue_on_error=False, filter_expr=None, ign
                                         ignore_value_expectation=ignore_expect)
             for m in (itertools.islice(gen, limit) if limit else gen):
                 items.append(m.serialized_bytes)
+                if digests is not None:
+                    digests[0].append(digests[1](m))
             if limit and len(items) >= limit:
                 outcome = 'limit'
     except Exception as e:  # noqa
